@@ -53,7 +53,7 @@ class C08(Prop):
                   "(set/get_variable_values, shift_time_step_values, shift_iterate_values) on a "
                   "one-variable system.")
     technique = "Coq proof (window refinement by induction over histories) + vm_compute execution correspondence"
-    rule = ("random histories of set/add/get/shift on one (location,name) slot, through the pp.*_solution_values helpers (2/3) or the EquationSystem wrappers (1/3); 60% "
+    rule = ("random histories of set/add/get/shift on one (location,name) slot, through the pp.*_solution_values helpers or the EquationSystem wrappers (one variable), plus 1/8 multi-slot cases: selective set/add/shift/get on 4 (name, grid) variables of one fractured-domain EquationSystem, every slot compared with its own window; 60% "
             "'disciplined' (writes at index 0, fixed depth), 40% arbitrary indices incl. "
             "negative, non-contiguous keys, changing depths; every array handed to or "
             "returned by the implementation is overwritten afterwards (aliasing probe); "
@@ -65,7 +65,10 @@ class C08(Prop):
 
     def generate(self, rng, n, tier):
         maxops = 40 if tier == "quick" else 120
-        for _ in range(n):
+        for k in range(n):
+            if k % 8 == 7:
+                yield self._gen_multi(rng, maxops)
+                continue
             size = rng.randint(1, 3)
             loc = rng.choice(["ts", "it"])
             via = rng.choice(["helpers", "helpers", "eqsys"])
@@ -117,6 +120,101 @@ class C08(Prop):
                         ops.append(["get", idx])
                 yield {"size": size, "loc": loc, "via": via, "ops": ops, "disciplined": None}
 
+    # ---- several variables on several grids through the EquationSystem wrappers -------
+    SLOTS = [("x", 0), ("y", 0), ("x", 1), ("y", 1)]  # (name, subdomain index)
+
+    def _gen_multi(self, rng, maxops):
+        """Selective writes / shifts / reads on 4 (name, grid) slots of one system: every
+        slot must behave as its own window; slots not named in a call must not move."""
+        loc = rng.choice(["ts", "it"])
+        nops = rng.randint(3, max(4, maxops // 2))
+        ops = []
+        have0 = [False] * 4
+        for _ in range(nops):
+            r = rng.random()
+            subset = sorted(rng.sample(range(4), rng.randint(1, 4)))
+            if r < 0.4 or not any(have0):
+                ops.append(["set", 0, subset, [[rng.randint(-200, 200) for _ in range(3)]
+                                                for _ in subset]])
+                for j in subset:
+                    have0[j] = True
+            elif r < 0.55 and all(have0[j] for j in subset):
+                ops.append(["add", 0, subset, [[rng.randint(-200, 200) for _ in range(3)]
+                                                for _ in subset]])
+            elif r < 0.8:
+                ops.append(["shift", rng.choice([None, 2, 3, 3, 4]), subset])
+            else:
+                ops.append(["get", rng.randint(0, 3), [rng.randrange(4)]])
+        return {"loc": loc, "via": "eqsys_multi", "ops": ops, "size": 3, "disciplined": None}
+
+    def _multi_system(self):
+        mdg, _ = pp.mdg_library.square_with_orthogonal_fractures(
+            "cartesian", {"cell_size": 0.5}, fracture_indices=[1])
+        sds = mdg.subdomains()
+        eqs = pp.ad.EquationSystem(mdg)
+        eqs.create_variables("x", {"cells": 1}, subdomains=sds)
+        eqs.create_variables("y", {"cells": 1}, subdomains=sds)
+        slots = []
+        for name, gi in self.SLOTS:
+            v = [v for v in eqs.variables if v.name == name and v.domain == sds[gi]][0]
+            slots.append(v)
+        return eqs, mdg, sds, slots
+
+    def _run_multi(self, case):
+        eqs, mdg, sds, slots = self._multi_system()
+        kw = "time_step_index" if case["loc"] == "ts" else "iterate_index"
+        location = pp.TIME_STEP_SOLUTIONS if case["loc"] == "ts" else pp.ITERATE_SOLUTIONS
+        n = [sds[gi].num_cells for _, gi in self.SLOTS]
+        first = [int(eqs.dofs_of([v])[0]) for v in slots]
+        per_ops = [[] for _ in range(4)]
+        per_outs = [[] for _ in range(4)]
+
+        def pad(vec, m):  # values of a slot: the 3 drawn numbers repeated to the slot size
+            return [vec[i % 3] for i in range(m)]
+
+        for o in case["ops"]:
+            sub = o[2]
+            order = sorted(sub, key=lambda j: first[j])  # global dof order
+            variables = [slots[j] for j in sub]
+            try:
+                if o[0] in ("set", "add"):
+                    vals = {j: pad(v, n[j]) for j, v in zip(sub, o[3])}
+                    arr = np.concatenate([np.array([x / 4.0 for x in vals[j]]) for j in order])
+                    try:
+                        eqs.set_variable_values(arr, variables, additive=(o[0] == "add"),
+                                                **{kw: o[1]})
+                    finally:
+                        arr[:] = 977.0
+                    for j in sub:
+                        per_ops[j].append([o[0], o[1], vals[j]])
+                        per_outs[j].append(["done"])
+                elif o[0] == "shift":
+                    if case["loc"] == "ts":
+                        eqs.shift_time_step_values(variables, max_index=o[1])
+                    else:
+                        eqs.shift_iterate_values(variables, max_index=o[1])
+                    for j in sub:
+                        per_ops[j].append(["shift", o[1]])
+                        per_outs[j].append(["done"])
+                else:
+                    j = sub[0]
+                    per_ops[j].append(["get", o[1]])
+                    v = eqs.get_variable_values(variables, **{kw: o[1]})
+                    per_outs[j].append(["val", [int(4 * x) for x in v]])
+                    v[:] = -977.0
+            except KeyError:
+                per_outs[sub[0]].append(["err", "KeyErr"])
+            except ValueError:
+                for j in sub:
+                    if len(per_ops[j]) > len(per_outs[j]):
+                        per_outs[j].append(["err", "ValueErr"])
+        dumps = []
+        for (name, gi) in self.SLOTS:
+            d = mdg.subdomain_data(sds[gi])
+            dumps.append([[int(k), [int(4 * x) for x in v]]
+                          for k, v in sorted(d[location][name].items())])
+        return {"per_ops": per_ops, "per_outs": per_outs, "dumps": dumps}
+
     def _eqsys(self, size):
         g = pp.CartGrid([size])
         g.compute_geometry()
@@ -127,6 +225,8 @@ class C08(Prop):
         return eqs, mdg.subdomain_data(g)
 
     def run_impl(self, case):
+        if case.get("via") == "eqsys_multi":
+            return self._run_multi(case)
         data = {}
         name = "x"
         eqs = None
@@ -177,6 +277,31 @@ class C08(Prop):
         return {"outs": outs, "dump": dump}
 
     def oracle(self, case, res):
+        if case.get("via") == "eqsys_multi":
+            # every slot is its own dictionary: replay the calls that named it
+            for j in range(4):
+                store = {}
+                for o, out in zip(res["per_ops"][j], res["per_outs"][j]):
+                    if o[0] == "set":
+                        store[o[1]] = list(o[2])
+                    elif o[0] == "add":
+                        store[o[1]] = [a + b for a, b in zip(store[o[1]], o[2])]
+                    elif o[0] == "shift":
+                        nst = len(store)
+                        rg = range(nst, 0, -1) if (o[1] is None or o[1] > nst) \
+                            else range(o[1] - 1, 0, -1)
+                        for i in rg:
+                            store[i] = list(store[i - 1])
+                    else:
+                        exp = ["val", store[o[1]]] if o[1] in store else ["err", "KeyErr"]
+                        if out != exp:
+                            return (f"slot {self.SLOTS[j]}: read at index {o[1]} returned "
+                                    f"{out}, its own history says {exp}")
+                got = {k: v for k, v in res["dumps"][j]}
+                if got != store:
+                    return (f"slot {self.SLOTS[j]} holds {got}, but the calls that named it "
+                            f"give {store} (a call on other variables moved it, or one on it did not)")
+            return None
         d = case.get("disciplined")
         if not d:
             return None
@@ -212,6 +337,15 @@ class C08(Prop):
         return None
 
     def coq_case(self, case, res):
+        if case.get("via") == "eqsys_multi":
+            terms = []
+            for j in range(4):
+                ops = clist(res["per_ops"][j], _op)
+                outs = clist(res["per_outs"][j], _out)
+                dump = "(Some " + clist(res["dumps"][j],
+                                        lambda kv: f"({kv[0]}%nat, {_vec(kv[1])})") + ")"
+                terms.append(f"agree_from (Some []) {ops} {outs} {dump}")
+            return "(" + " && ".join(terms) + ")%bool"
         ops = clist(case["ops"], _op)
         outs = clist(res["outs"], _out)
         dump = coption(res["dump"], lambda l: clist(l, lambda kv: f"({kv[0]}%nat, {_vec(kv[1])})"))
@@ -220,10 +354,14 @@ class C08(Prop):
         return f"agree_from {init} {ops} {outs} {dump}"
 
     def coq_diag(self, case, res):
+        if case.get("via") == "eqsys_multi":
+            return None
         init = "(Some [])" if case.get("via") == "eqsys" else "None"
         return f"run vaddZ {init} {clist(case['ops'], _op)}"
 
     def nontrivial(self, case, res):
+        if case.get("via") == "eqsys_multi":
+            return True
         ks = {o[0] for o in case["ops"]}
         return "shift" in ks and ("set" in ks or "add" in ks)
 
